@@ -433,7 +433,22 @@ func eq(a, b string) string {
 	if a == b {
 		return "true"
 	}
+	if isIntLit(a) && isIntLit(b) {
+		return "false" // two different integer literals
+	}
 	return "(= " + a + " " + b + ")"
+}
+
+func isIntLit(s string) bool {
+	if s == "" {
+		return false
+	}
+	for _, c := range s {
+		if c < '0' || c > '9' {
+			return false
+		}
+	}
+	return true
 }
 
 func sel(arr, idx string) string { return "(select " + arr + " " + idx + ")" }
